@@ -226,13 +226,20 @@ def multisets(maxdeg):
     return out
 
 
-COEFF_FORMS = ['real_ndarray', 'complex_dtype_ndarray', 'list_of_python_floats', 'list_of_python_complex', 'poly1d', 'tuple']
+COEFF_FORMS = ['real_ndarray', 'complex_dtype_ndarray', 'list_of_python_floats', 'list_of_python_complex', 'poly1d', 'tuple',
+               'times_1e-14', 'times_1e14', 'times_2^-60_as_list']
 
 
 def coeff_form(c, form):
     """the same real polynomial handed over as the container / dtype a caller may have at hand"""
     if form == 'real_ndarray':
         return np.array(c, dtype=float)
+    if form == 'times_1e-14':
+        return np.array(c, dtype=float) * 1e-14        # the same roots: a polynomial is only defined up to a factor
+    if form == 'times_1e14':
+        return np.array(c, dtype=float) * 1e14
+    if form == 'times_2^-60_as_list':
+        return [float(x) * 2.0 ** -60 for x in c]
     if form == 'complex_dtype_ndarray':
         return np.array(c, dtype=complex)
     if form == 'list_of_python_floats':
@@ -413,6 +420,7 @@ def shards(tier, seed):
     out += [{'what': 'special', 'degree': n} for n in range(0, 9)]
     out += [{'what': 'native', 'degree': n} for n in range(1, 6)]
     out.append({'what': 'zero_root'})
+    out.append({'what': 'split_near_ends'})
     return out
 
 
@@ -429,6 +437,8 @@ def run_shard(desc, tier, seed):
         run_native(desc['degree'], acc)
     elif desc['what'] == 'zero_root':
         run_zero_root(acc)
+    elif desc['what'] == 'split_near_ends':
+        run_split_near_ends(acc)
     elif desc['what'] == 'limits':
         run_limits(acc)
     else:
@@ -530,6 +540,36 @@ def run_zero_root(acc, only=None):
                     acc.violation('spurious_root', {'fn': fn_name}, case, observed=[core.jz(g) for g in got], expected=want)
 
 
+SPLIT_NEAR_ENDS = [1e-9, 3e-9, 1e-6, 1.0 - 3e-5, 1.0 - 3e-6, 1.0 - 1e-6, 1.0 - 1e-9]
+
+
+def run_split_near_ends(acc, only=None):
+    """split_bezier / bezier_point at parameters close to (not at) 0 and 1: the two sub-curves are those of that
+    parameter (exact reference over Q, compared to rounding), not those of the end point next to it"""
+    from fractions import Fraction as F_
+    for n in range(1, 6):
+        for ti, tup in enumerate(NATIVE_TUPLES):
+            pts = [complex(tup[i], tup[(i + 2) % len(tup)]) for i in range(n + 1)]
+            ex = [GQ.of(q) for q in pts]
+            mag = max(abs(q) for q in pts) + 1e-300
+            for t in SPLIT_NEAR_ENDS:
+                case = {'what': 'split_near_ends', 'degree': n, 'tuple': ti, 't': t}
+                if only is not None and only != case:
+                    continue
+                acc.case(case, cls='split_near_ends/deg%d' % n)
+                want = ref_split(ex, F_(t))
+                r = outcome(lambda: [list(x) for x in split_bezier(pts, t)])
+                ok = r[0] == 'ok' and len(r[1]) == 2 and all(len(a) == len(b) and all(abs(complex(x) - complex(y)) <= 64 * 2.0 ** -52 * mag for x, y in zip(a, b))
+                                                            for a, b in zip(r[1], want))
+                if not ok:
+                    acc.violation('split_differs_near_an_end', {'helper': 'split_bezier', 'degree': 'le3' if n <= 3 else n, 'end': 0 if t < 0.5 else 1}, case,
+                                  observed=repr(r)[:300], expected=repr([[complex(x) for x in a] for a in want])[:300])
+                rp = outcome(lambda: complex(bezier_point(pts, t)))
+                wp = complex(bernstein_eval(ex, F_(t)))
+                if rp[0] != 'ok' or not abs(rp[1] - wp) <= 64 * 2.0 ** -52 * mag:
+                    acc.violation('split_differs_near_an_end', {'helper': 'bezier_point', 'degree': 'le3' if n <= 3 else n, 'end': 0 if t < 0.5 else 1}, case, observed=rp, expected=wp)
+
+
 def run_native(n, acc, only=None):
     """the helpers take control points of whatever number type the caller has: Python ints, floats,
     complex, integer / float / complex ndarrays, Fractions.  Same values, every form, against the exact
@@ -587,6 +627,9 @@ def replay(case):
         return acc.vlist
     if case['what'] == 'zero_root':
         run_zero_root(acc, only=case)
+        return acc.vlist
+    if case['what'] == 'split_near_ends':
+        run_split_near_ends(acc, only=case)
         return acc.vlist
     if case['what'] == 'identity':
         run_identities(case['degree'], case['choice'], acc, only=case['identity'])
